@@ -1,0 +1,17 @@
+//go:build verif
+
+package visitor
+
+import "sort"
+
+// VerifNames returns the names of the registered visitor listeners (verification tooling only).
+func (vm *Manager) VerifNames() []string {
+	vm.mu.RLock()
+	defer vm.mu.RUnlock()
+	out := make([]string, 0, len(vm.listeners))
+	for n := range vm.listeners {
+		out = append(out, n)
+	}
+	sort.Strings(out)
+	return out
+}
